@@ -124,3 +124,246 @@ Proof.
   constructor; rewrite ?Hg; auto.
   intros Hw Hn. destruct (Hs Hn); auto.
 Qed.
+
+(* ---------- initial state ---------- *)
+Lemma sum_const_one {A} (f : A -> nat) (ls : list A) : (forall x, In x ls -> f x = 1%nat) ->
+  list_sum (map f ls) = length ls.
+Proof.
+  induction ls as [|a r IH]; simpl; intros H; [reflexivity|].
+  rewrite (H a (or_introl eq_refl)), IH; auto.
+Qed.
+
+Lemma Inv_init n progs : wf_prog n progs = true -> Inv (gl (init n progs)) (thr (init n progs)).
+Proof.
+  intros Hwf. unfold wf_prog in Hwf. apply andb_true_iff in Hwf as [Hwf Hth]. apply andb_true_iff in Hwf as [Hn Hm].
+  apply Z.eqb_eq in Hn. apply Z.ltb_lt in Hm. rewrite forallb_forall in Hth.
+  assert (Hw : wrap n = n) by (unfold wrap; apply Z.mod_small; lia).
+  assert (P : forall u, pcof (map (fun p => Loc p Idle 0 0 false p) progs) u = Idle).
+  { intros u. unfold pcof. rewrite nth_error_map. destruct (nth_error progs u); reflexivity. }
+  unfold init; cbn [gl thr]. constructor; cbn [threshold count generation mtx sleepers wrapped]; rewrite ?Hw.
+  - unfold num_active. rewrite sum_const_one, map_length; [lia|].
+    intros x Hx. apply in_map_iff in Hx as [p [<- _]]. reflexivity.
+  - unfold num_pending. rewrite sum_const_one, map_length; [lia|].
+    intros x Hx. apply in_map_iff in Hx as [p [<- _]]. reflexivity.
+  - auto.
+  - reflexivity.
+  - intros u. rewrite P. discriminate.
+  - discriminate.
+  - contradiction.
+  - contradiction.
+  - intros a. rewrite P. discriminate.
+  - intros u l Hl. rewrite nth_error_map in Hl. destruct (nth_error progs u) as [p|] eqn:Hp; [|discriminate].
+    inversion Hl; subst l. apply nth_error_In in Hp. specialize (Hth p Hp).
+    constructor; cbn; try lia; try discriminate; auto.
+Qed.
+
+(* ---------- one step preserves the invariant ---------- *)
+Lemma sums_same ls t l l' : nth_error ls t = Some l -> dropped l' = dropped l -> arr l' = arr l ->
+  num_active (upd ls t l') = num_active ls /\ forall gen, num_pending gen (upd ls t l') = num_pending gen ls.
+Proof.
+  intros Hl Hd Ha. split; [|intros gen].
+  - unfold num_active. pose proof (sum_upd active ls t l l' Hl) as H. unfold active in H at 2 4. rewrite Hd in H. lia.
+  - unfold num_pending. pose proof (sum_upd (pending gen) ls t l l' Hl) as H. unfold pending in H at 2 4.
+    rewrite Hd, Ha in H. lia.
+Qed.
+
+Lemma dec_pos x : 1 <= x -> dec x = x - 1 /\ (x =? 0) = false.
+Proof. intros H. unfold dec. destruct (Z.eqb_spec x 0); [lia|auto]. Qed.
+
+Ltac simp_loc := unfold todo in *;
+  cbn [at_ prog lgen arr dropped prog0 waiting threshold count generation mtx sleepers wrapped set_mtx set_slp] in *.
+
+Ltac mx Hl Hp HO HH HSP t :=
+  let u := fresh "u" in
+  intros u; rewrite (pcof_upd _ _ _ _ _ Hl); cbn [at_];
+  pose proof (HO t); pose proof (HH t); pose proof (HSP t);
+  pose proof (HO u); pose proof (HH u); pose proof (HSP u);
+  destruct (Nat.eqb_spec u t) as [->|?]; cbn; intros; rewrite ?Hp in *; cbn in *;
+  try match goal with H : In _ (rem _ _) |- _ => apply In_rem in H; destruct H end;
+  intuition (discriminate || congruence || eauto).
+
+Lemma Inv_step : forall g ls t c l g' l' es,
+  Inv g ls -> nth_error ls t = Some l -> tstep t c g l = Some (g', l', es) -> Inv g' (upd ls t l').
+Proof.
+  intros g ls t c l g' l' es HI Hl Hs.
+  pose proof (I_thrd _ _ HI t l Hl) as HT.
+  pose proof (pcof_at _ _ _ Hl) as Hp.
+  destruct HI as [Hthr Hcnt Hcpos Hwr HO HH HSP HWK HNY HTD].
+  destruct l as [pr p lg ar dr p0]. cbn [at_] in Hp.
+  unfold tstep in Hs; cbn [at_ prog lgen arr dropped prog0] in Hs.
+  destruct p.
+  - (* Idle: invoke *)
+    destruct pr as [|o r]; [discriminate|]. inversion Hs; subst g' l' es; clear Hs.
+    destruct (sums_same ls t _ (Loc r (B_lock o) lg ar dr p0) Hl eq_refl eq_refl) as [Ea Ep].
+    constructor; rewrite ?Ea, ?Ep; auto.
+    + mx Hl Hp HO HH HSP t.
+    + mx Hl Hp HO HH HSP t.
+    + mx Hl Hp HO HH HSP t.
+    + intros u x Hu Hin Hne. apply nth_upd in Hu as [[<- [-> _]] | [Hne' Hu]].
+      * specialize (HSP t Hin). rewrite Hp in HSP. discriminate.
+      * destruct (HWK u x Hu Hin Hne) as [a [Ha Hn]]. exists a. split; auto.
+        rewrite (pcof_upd _ _ _ _ _ Hl). destruct (Nat.eqb_spec a t) as [->|]; auto. rewrite Hp in Hn. discriminate.
+    + intros a Ha u x Hu. rewrite (pcof_upd _ _ _ _ _ Hl) in Ha.
+      destruct (Nat.eqb_spec a t) as [E|E]; [discriminate|].
+      apply nth_upd in Hu as [[<- [-> _]] | [Hne' Hu]].
+      * apply (HNY a Ha t _ Hl).
+      * apply (HNY a Ha u x Hu).
+    + intros u x Hu. apply nth_upd in Hu as [[<- [-> _]] | [Hne' Hu]]; [|auto].
+      destruct HT. constructor; simp_loc; auto; try discriminate.
+  - (* B_lock: the arrival *)
+    destruct (mtx g) eqn:Hm; [discriminate|].
+    destruct HT as [Tle Tge TW Tlg Tsl Tnt Tcp Tdr Twf Tln Thd]. simp_loc.
+    assert (Hdr : dr = false) by (destruct dr; auto; specialize (Tdr eq_refl); discriminate).
+    assert (Har : Z.of_nat ar = generation g).
+    { specialize (Tge Hdr). destruct (Z.eq_dec (Z.of_nat ar) (generation g + 1)) as [E|E]; [specialize (TW E); discriminate|lia]. }
+    subst dr.
+    assert (Hact : active (Loc pr (B_lock k) lg ar false p0) = 1%nat) by reflexivity.
+    assert (Hpen : pending (generation g) (Loc pr (B_lock k) lg ar false p0) = 1%nat).
+    { unfold pending; cbn. destruct (Z.eqb_spec (Z.of_nat ar) (generation g + 1)); [lia|reflexivity]. }
+    pose proof (sum_ge_nth active ls t _ Hl) as Ga. pose proof (sum_ge_nth (pending (generation g)) ls t _ Hl) as Gp.
+    rewrite Hact in Ga. rewrite Hpen in Gp.
+    assert (Ht1 : 1 <= threshold g) by (unfold num_active in Hthr; lia).
+    assert (Hc1 : 1 <= count g) by (unfold num_pending in Hcnt; lia).
+    destruct (dec_pos _ Ht1) as [Dt Zt]. destruct (dec_pos _ Hc1) as [Dc Zc].
+    rewrite Dc, Zc, Hwr in Hs. unfold pred in Hs. cbn [generation] in Hs. rewrite Z.eqb_refl in Hs. cbn [negb] in Hs.
+    assert (Hnoh : forall u, holds (pcof ls u) = true -> False) by (intros u Hu; specialize (HO u Hu); congruence).
+    assert (Hnos : forall u x, u <> t -> nth_error ls u = Some x -> at_ x = B_sleep -> False).
+    { intros u x _ Hu Hx. apply (Hnoh u). rewrite (pcof_at _ _ _ Hu), Hx. reflexivity. }
+    destruct (Z.eqb_spec (count g - 1) 0) as [Ec|Ec].
+    + (* the last arriver: bump, reset *)
+      assert (Hoth : forall u x, u <> t -> nth_error ls u = Some x -> dropped x = true \/ Z.of_nat (arr x) = generation g + 1).
+      { intros u x Hne Hu. assert (E1 : list_sum (map (pending (generation g)) ls) = pending (generation g) (Loc pr (B_lock k) lg ar false p0)).
+        { rewrite Hpen. unfold num_pending in Hcnt. lia. }
+        pose proof (sum_single _ ls t _ Hl E1 u x Hne Hu) as Z0. unfold pending in Z0.
+        destruct (dropped x); [left; reflexivity|]. destruct (Z.eqb_spec (Z.of_nat (arr x)) (generation g + 1)); [right; assumption|discriminate]. }
+      assert (Hpa : forall l1, Z.of_nat (arr l1) = generation g + 1 ->
+                num_pending (generation g + 1) (upd ls t l1) = num_active (upd ls t l1)).
+      { intros l1 Hl1. apply sum_ext_nth. intros u x Hu. unfold pending, active.
+        destruct (dropped x); [reflexivity|].
+        apply nth_upd in Hu as [[<- [-> _]] | [Hne' Hu]].
+        - destruct (Z.eqb_spec (Z.of_nat (arr l1)) (generation g + 1 + 1)); [lia|reflexivity].
+        - pose proof (T_le _ _ _ (HTD u x Hu)). destruct (Z.eqb_spec (Z.of_nat (arr x)) (generation g + 1 + 1)); [lia|reflexivity]. }
+      destruct k; rewrite ?Dt in Hs; inversion Hs; subst g' l' es; clear Hs.
+      all: match goal with |- Inv _ (upd _ _ ?l1) =>
+             pose proof (sum_upd active ls t _ l1 Hl) as Sa; rewrite Hact in Sa;
+             (let v := eval cbv in (active l1) in change (active l1) with v in Sa);
+             pose proof (Hpa l1) as Sp; cbn [arr] in Sp; specialize (Sp ltac:(lia)) end.
+      all: constructor; simp_loc; auto; rewrite ?Sp; try (unfold num_active in *; lia).
+      all: try (mx Hl Hp HO HH HSP t; fail).
+      all: try (intros u x _ _ _; exists t; split; [reflexivity|]; rewrite (pcof_upd _ _ _ _ _ Hl), Nat.eqb_refl; reflexivity).
+      all: try (intros a _ u x Hu; apply nth_upd in Hu as [[<- [-> _]] | [Hne' Hu]]; [cbn; lia|];
+                pose proof (T_le _ _ _ (HTD u x Hu)); lia).
+      all: intros u x Hu; apply nth_upd in Hu as [[<- [-> _]] | [Hne' Hu]].
+      all: try (cbn [wf_thread length] in *; unfold has_drop in *; cbn [existsb is_drop orb] in *;
+                constructor; simp_loc; intros; try discriminate; try lia; auto;
+                try (destruct pr; [reflexivity|discriminate Twf]); fail).
+      all: try (destruct (HTD u x Hu) as [Ule Uge UW Ulg Usl Unt Ucp Udr Uwf Uln Uhd];
+                destruct (Hoth u x ltac:(auto) Hu) as [Hd|Ha];
+                constructor; simp_loc; intros; auto; try congruence; try lia;
+                try (exfalso; eapply Hnos; eauto; fail); fail).
+    + (* not the last: goes to sleep *)
+      destruct k; rewrite ?Dt in Hs; inversion Hs; subst g' l' es; clear Hs.
+      all: match goal with |- Inv _ (upd _ _ ?l1) =>
+             pose proof (sum_upd active ls t _ l1 Hl) as Sa; rewrite Hact in Sa;
+             (let v := eval cbv in (active l1) in change (active l1) with v in Sa);
+             pose proof (sum_upd (pending (generation g)) ls t _ l1 Hl) as Sp; rewrite Hpen in Sp;
+             assert (Hp1 : pending (generation g) l1 = 0%nat)
+               by (unfold pending; cbn [dropped arr];
+                   first [reflexivity | destruct (Z.eqb_spec (Z.of_nat (S ar)) (generation g + 1)); [reflexivity|lia]]);
+             rewrite Hp1 in Sp end.
+      all: constructor; simp_loc; auto; try (unfold num_active, num_pending in *; lia).
+      all: try (mx Hl Hp HO HH HSP t; fail).
+      all: try (intros u x Hu Hin Hne; exfalso; apply nth_upd in Hu as [[<- [-> _]] | [Hne' Hu]];
+                [specialize (HSP t Hin); rewrite Hp in HSP; discriminate
+                |destruct (HWK u x Hu Hin Hne) as [a [Ha _]]; congruence]; fail).
+      all: try (intros a Ha; exfalso; rewrite (pcof_upd _ _ _ _ _ Hl) in Ha;
+                destruct (Nat.eqb_spec a t) as [E|E]; [discriminate|];
+                apply (Hnoh a); destruct (pcof ls a); try discriminate; reflexivity).
+      all: intros u x Hu; apply nth_upd in Hu as [[<- [-> _]] | [Hne' Hu]].
+      all: try (cbn [wf_thread length] in *; unfold has_drop in *; cbn [existsb is_drop orb] in *;
+                constructor; simp_loc; intros; try discriminate; try lia; auto;
+                try (destruct pr; [reflexivity|discriminate Twf]); fail).
+      all: apply (TInv_stable g); auto; simp_loc; intros; lia.
+  - (* B_notify *)
+    inversion Hs; subst g' l' es; clear Hs.
+    destruct (sums_same ls t _ (Loc pr B_unlock lg ar dr p0) Hl eq_refl eq_refl) as [Ea Ep].
+    constructor; simp_loc; rewrite ?Ea, ?Ep; auto.
+    + mx Hl Hp HO HH HSP t.
+    + mx Hl Hp HO HH HSP t.
+    + intros u x _ [].
+    + intros a Ha u x Hu. rewrite (pcof_upd _ _ _ _ _ Hl) in Ha.
+      destruct (Nat.eqb_spec a t) as [E|E]; [discriminate|].
+      apply nth_upd in Hu as [[<- [-> _]] | [Hne' Hu]].
+      * apply (HNY a Ha t _ Hl).
+      * apply (HNY a Ha u x Hu).
+    + intros u x Hu. apply nth_upd in Hu as [[<- [-> _]] | [Hne' Hu]].
+      * destruct HT. constructor; simp_loc; auto; try discriminate.
+      * apply (TInv_stable g); auto. intros _. right. eapply (HNY t); [rewrite Hp; reflexivity|exact Hu].
+  - (* B_sleep *)
+    inversion Hs; subst g' l' es; clear Hs.
+    destruct (sums_same ls t _ (Loc pr B_woken lg ar dr p0) Hl eq_refl eq_refl) as [Ea Ep].
+    assert (Hm : mtx g = Some t) by (apply HO; rewrite Hp; reflexivity).
+    constructor; simp_loc; rewrite ?Ea, ?Ep; auto.
+    + mx Hl Hp HO HH HSP t.
+    + discriminate.
+    + intros u [<-|Hin]; rewrite (pcof_upd _ _ _ _ _ Hl).
+      * rewrite Nat.eqb_refl. reflexivity.
+      * destruct (Nat.eqb_spec u t); [reflexivity|auto].
+    + intros u x Hu Hin Hne. exfalso. apply nth_upd in Hu as [[<- [-> _]] | [Hne' Hu]].
+      * destruct HT as [_ _ _ Tlg Tsl _ _ _ _ _ _]. simp_loc. specialize (Tlg eq_refl). specialize (Tsl eq_refl). lia.
+      * destruct Hin as [E|Hin]; [congruence|]. destruct (HWK u x Hu Hin Hne) as [a [Ha Hn]].
+        assert (a = t) by congruence. subst a. rewrite Hp in Hn. discriminate.
+    + intros a Ha u x Hu. rewrite (pcof_upd _ _ _ _ _ Hl) in Ha.
+      destruct (Nat.eqb_spec a t) as [E|E]; [discriminate|].
+      apply nth_upd in Hu as [[<- [-> _]] | [Hne' Hu]].
+      * apply (HNY a Ha t _ Hl).
+      * apply (HNY a Ha u x Hu).
+    + intros u x Hu. apply nth_upd in Hu as [[<- [-> _]] | [Hne' Hu]].
+      * destruct HT. constructor; simp_loc; auto; try discriminate. intros _ Hn. exfalso. apply Hn. left. reflexivity.
+      * apply (TInv_stable g); auto. simp_loc. intros Hn. left. intros Hin. apply Hn. right. exact Hin.
+  - (* B_woken *)
+    destruct (negb (mem t (sleepers g)) || Nat.eqb c 1) eqn:Hen; [|discriminate].
+    destruct (mtx g) eqn:Hm; [discriminate|].
+    inversion Hs; subst g' l' es; clear Hs.
+    assert (Hnoh : forall u, holds (pcof ls u) = true -> False) by (intros u Hu; specialize (HO u Hu); congruence).
+    match goal with |- Inv _ (upd _ _ ?l1) => destruct (sums_same ls t _ l1 Hl eq_refl eq_refl) as [Ea Ep] end.
+    constructor; simp_loc; rewrite ?Ea, ?Ep; auto.
+    + intros u. rewrite (pcof_upd _ _ _ _ _ Hl). destruct (Nat.eqb_spec u t) as [->|Hne]; [reflexivity|].
+      intros Hu. exfalso. eauto.
+    + intros a Ha. inversion Ha; subst a. rewrite (pcof_upd _ _ _ _ _ Hl), Nat.eqb_refl. cbn [at_].
+      destruct (pred lg g); reflexivity.
+    + intros u Hin. apply In_rem in Hin as [Hin Hne]. rewrite (pcof_upd _ _ _ _ _ Hl).
+      destruct (Nat.eqb_spec u t); [contradiction|auto].
+    + intros u x Hu Hin Hne. exfalso. apply In_rem in Hin as [Hin Hne2].
+      apply nth_upd in Hu as [[<- [-> _]] | [Hne' Hu]]; [congruence|].
+      destruct (HWK u x Hu Hin Hne) as [a [Ha _]]. congruence.
+    + intros a Ha. exfalso. rewrite (pcof_upd _ _ _ _ _ Hl) in Ha.
+      destruct (Nat.eqb_spec a t) as [E|E]; [cbn [at_] in Ha; destruct (pred lg g); discriminate|].
+      apply (Hnoh a). destruct (pcof ls a); try discriminate; reflexivity.
+    + intros u x Hu. apply nth_upd in Hu as [[<- [-> _]] | [Hne' Hu]].
+      * destruct HT as [Tle Tge TW Tlg Tsl Tnt Tcp Tdr Twf Tln Thd]. simp_loc. specialize (Tlg eq_refl).
+        unfold pred. destruct (Z.eqb_spec lg (generation g)) as [Eg|Eg]; cbn [negb].
+        -- constructor; simp_loc; auto; try discriminate. intros _. lia.
+        -- constructor; simp_loc; auto; try discriminate. intros Ea'. exfalso. lia.
+      * apply (TInv_stable g); auto. simp_loc. intros Hn. left. intros Hin. apply Hn. apply In_rem. auto.
+  - (* B_unlock *)
+    inversion Hs; subst g' l' es; clear Hs.
+    destruct (sums_same ls t _ (Loc pr Idle lg ar dr p0) Hl eq_refl eq_refl) as [Ea Ep].
+    assert (Hm : mtx g = Some t) by (apply HO; rewrite Hp; reflexivity).
+    constructor; simp_loc; rewrite ?Ea, ?Ep; auto.
+    + mx Hl Hp HO HH HSP t.
+    + discriminate.
+    + mx Hl Hp HO HH HSP t.
+    + intros u x Hu Hin Hne. exfalso. apply nth_upd in Hu as [[<- [-> _]] | [Hne' Hu]].
+      * specialize (HSP t Hin). rewrite Hp in HSP. discriminate.
+      * destruct (HWK u x Hu Hin Hne) as [a [Ha Hn]].
+        assert (a = t) by congruence. subst a. rewrite Hp in Hn. discriminate.
+    + intros a Ha u x Hu. rewrite (pcof_upd _ _ _ _ _ Hl) in Ha.
+      destruct (Nat.eqb_spec a t) as [E|E]; [discriminate|].
+      apply nth_upd in Hu as [[<- [-> _]] | [Hne' Hu]].
+      * apply (HNY a Ha t _ Hl).
+      * apply (HNY a Ha u x Hu).
+    + intros u x Hu. apply nth_upd in Hu as [[<- [-> _]] | [Hne' Hu]].
+      * destruct HT. constructor; simp_loc; auto; try discriminate.
+      * apply (TInv_stable g); auto.
+Qed.
